@@ -22,7 +22,7 @@ RULE = ("random model definitions (vf.gen.program: 1-5 states, 0-3 controls, 0-3
         "strings, 1-3 shared sub-terms spliced into several outputs) x both CSE settings x N named "
         "input points (incl. angle-wrap idioms, proactive_simplify, symbols with assumptions, integer-only "
         "calibration maps, tiny literals x huge calibration values, states through from_data as int64/float32, "
-        "keyword calls, consecutive calls at inputs that hash alike, input objects reused after in-place "
+        "a second model over the same symbols with a control and a calibration swapped, keyword calls, consecutive calls at inputs that hash alike, input objects reused after in-place "
         "writes; directed probes of the exp-overflow region and of saturating logistic gates); a case is non-trivial when the program has >=3 symbols, a shared sub-term used "
         "by >=2 outputs and a declaration order different from sorted order; distinct = sha256 of the "
         "canonical definition")
@@ -242,6 +242,40 @@ def run_unit(unit, ctx):
                     R.evals += 1
             except Exception as e:  # noqa: BLE001
                 R.add([K.V(K.exc_key("compile", e), f"recompiling with a refined calibration raised ({tag}): {K.exc_text(e)}",
+                           defn=defn, traceback=K.tb_text(e))])
+        # a second model in the same process with the same update expressions over the same symbols, in which a
+        # control input and a calibration value have swapped roles (a bias first commanded, later calibrated):
+        # compiled code must bind every symbol by its role in *this* model
+        if defn["control"] and defn["calibration"] and not defn.get("integer_calibration"):
+            try:
+                import copy as _copy
+
+                c_, k_ = defn["control"][0], defn["calibration"][0]
+                pt_t = dict(points[0])
+                twin = _copy.deepcopy(defn)
+                twin["control"] = [k_ if n_ == c_ else n_ for n_ in defn["control"]]
+                twin["calibration"] = [c_ if n_ == k_ else n_ for n_ in defn["calibration"]]
+                twin["calibration_map"] = {(c_ if n_ == k_ else n_): (pt_t[c_] if n_ == k_ else v_)
+                                           for n_, v_ in defn["calibration_map"].items()}
+                twin["process_noise"] = {(k_ if n_ == c_ else n_): v_ for n_, v_ in defn["process_noise"].items()}
+                pt_t[k_] = defn["calibration_map"][k_]
+                bt = build.Built(twin)
+                mt = bt.py_model(common_subexpression_elimination=cse)
+                rest = mt.model(float(pt_t[defn["dt"]]), mt.State(**{s_: pt_t[s_] for s_ in twin["state"]}),
+                                mt.Control(**{n_: pt_t[n_] for n_ in twin["control"]}))
+                orc_t = O.Oracle(twin)
+                env_t = orc_t.env(pt_t)
+                if gen.max_exp_argument(twin, env_t) <= gen.EXP_ARG_LIMIT:
+                    R.stats.inc("role_swapped_twin_models")
+                    vs = monitors.check_named_values(monitors.vec_dict(rest), orc_t.model(env_t), "model:value",
+                                                     f"Model.model ({tag}, second model over the same symbols with a control and a calibration swapped)",
+                                                     R.stats, tag="model")
+                    for v in vs:
+                        v["witness"].update(defn=twin, point=pt_t, cse=cse, first_model=defn)
+                    R.add(vs)
+                    R.evals += 1
+            except Exception as e:  # noqa: BLE001
+                R.add([K.V(K.exc_key("compile", e), f"role-swapped twin model raised ({tag}): {K.exc_text(e)}",
                            defn=defn, traceback=K.tb_text(e))])
         # the same State / Control objects used again after their buffers were written in place (a loop that
         # keeps one input object and updates .data[i, 0] per sample)
